@@ -57,7 +57,9 @@ def generate(tier, rng):
         for t in tiers:
             t["max"] = mx
         a, b = sorted((rng.randint(0, mx), rng.randint(0, mx)))
-        cases.append({"op": "tgerase", "tiers": tiers, "args": {"a": a, "b": b, "shrink": rng.random() < 0.5},
+        # a textgrid may span more than its tiers do (Textgrid(min, max) given explicitly, or after removeTier)
+        tgmax = mx + rng.randint(1, 9) if rng.random() < 0.35 else mx
+        cases.append({"op": "tgerase", "tiers": tiers, "tgmax": tgmax, "args": {"a": a, "b": b, "shrink": rng.random() < 0.5},
                       "scale": gen.pick_scale(rng)})
     return cases
 
@@ -70,7 +72,7 @@ def run(case):
     from praatio.data_classes.textgrid import Textgrid
 
     def f():
-        tg = Textgrid()
+        tg = Textgrid(sc.f(0), sc.f(case.get("tgmax", case["tiers"][0]["max"])))
         built = [core.mk_tier(t, sc) for t in case["tiers"]]
         for x in built:
             tg.addTier(x, reportingMode="silence")
@@ -115,10 +117,10 @@ def py_checks(case, r):
         fails.append("tier names/order changed")
     if v["tiers"] != v["per_tier"]:
         fails.append("a tier of the result differs from that tier's own eraseRegion(truncate)")
-    mx = case["tiers"][0]["max"]
+    mx = case.get("tgmax", case["tiers"][0]["max"])
     if (v["min"], v["max"]) != (0, mx - (b - a) if sh else mx):
-        fails.append("textgrid span %r" % ((v["min"], v["max"]),))
-    if not v["valid"]:
+        fails.append("textgrid span %r, expected %r" % ((v["min"], v["max"]), (0, mx - (b - a) if sh else mx)))
+    if not v["valid"] and mx == case["tiers"][0]["max"]:
         fails.append("result does not validate()")
     return fails
 
